@@ -59,6 +59,21 @@ CHECKS = {
    technique="exhaustive enumeration of index byte strings (all kinds 0..255, all lengths/parities; thorough: every byte string of length 0-3) x strings, real Tokenize with panics recovered, reference decoder oracle",
    text="Tokenize is a pure function of (string, index, entropy); the index space is enumerated exhaustively within the stated bounds for 9 strings including invalid UTF-8 and the empty string. Each call must return; a success must agree token by token with a reference decoder of the documented format; malformed indices must be errors.",
    note="Index tails are drawn from {0,1,2,3,5,255} beyond length 3; an error on a decodable index is allowed by the property and only counted."),
+ "C09": dict(
+   engine="E1-faults", category="fault_enumeration", ref="§3 C09",
+   technique="fault enumeration at every read position of the real generation path over a scripted crypto/rand.Reader (errors after 0-3 bytes, all chunkings of a 4-byte read)",
+   text="For 8 recipes x 4 scripted streams, a failure is injected at every individual read of the fault-free run (retry attempts, rejection-loop reads and separator sub-generations included): error faults must yield no password and no further reads; every way of chunking a read must leave the password, entropy and bytes consumed unchanged; replaying the bytes must reproduce the result and flipping words must be able to change it.",
+   note="go1.23.5 semantics of crypto/rand.Read (returns the reader's error). Single-fault executions; the menu of errors is {custom error, io.EOF}."),
+ "C16": dict(
+   engine="E-config", category="exploration", ref="§3 C16",
+   technique="complete enumeration of a finite configuration space (classes, defaults, constants, every preset's complete draw cell, every shipped list entry) against values transcribed from the documentation and the data files",
+   text="Nothing here depends on input: every documented constant and default is compared, each separator preset is explored over the complete cell of its draws (exact value set, exact probabilities, entropy), and both shipped lists are compared entry by entry with testdata.",
+   note="The documented values are transcribed into /verif/harness/checks/c16.go; the data files in /repo/testdata are the reference for the lists."),
+ "C18": dict(
+   engine="E1-cells", category="model_checking", ref="§3 C18",
+   technique="complete-cell DFS of the real generators with fd-level capture of stdout/stderr/log per execution; secret-glyph search plus non-interference across random streams and across two alphabet relabellings",
+   text="Recipes are instantiated over glyphs that occur in no diagnostic text; every execution of their cells (returned, retried, refused, all-attempts-fail), NewWordList with duplicates and the entropy entry points are run with file descriptors 1 and 2 captured. No glyph may appear, and the captured text must be the same for every stream of an outcome class and for both relabellings - so it cannot encode the secret even indirectly.",
+   note="Outcome classes are (returned/failed, words consumed); diagnostics may legitimately depend on those. Class-based recipes use non-interference only."),
 }
 
 PENDING_REASON = "check not built yet in this session (planned in DESIGN.md §3; will be claimed when its checker exists)"
@@ -93,8 +108,9 @@ def main():
             add_only=True),
         engines=[
             dict(name="E1-sweep", path="/verif/harness/checks/c01.go", serves_properties=["C01"], kind_free_text="full 2^32 word sweep over a scripted crypto/rand.Reader, shared-memory histogram"),
-            dict(name="E1-cells", path="/verif/harness/checks/cells.go", serves_properties=["C02"], kind_free_text="stateless DFS over announced draw outcomes (tape explorer) with exact rational leaf masses"),
-            dict(name="E-config", path="/verif/harness/checks/c07.go", serves_properties=["C07"], kind_free_text="exhaustive enumeration of recipe configurations (no randomness involved)"),
+            dict(name="E1-cells", path="/verif/harness/checks/cells.go", serves_properties=["C02","C03","C04","C05","C06","C11","C13","C18"], kind_free_text="stateless DFS over announced draw outcomes (tape explorer) with exact rational leaf masses"),
+            dict(name="E1-faults", path="/verif/harness/checks/c09.go", serves_properties=["C09"], kind_free_text="fault injector on the scripted reader: error/short-read at every read position"),
+            dict(name="E-config", path="/verif/harness/checks/c07.go", serves_properties=["C07","C12","C16"], kind_free_text="exhaustive enumeration of recipe configurations (no randomness involved)"),
         ],
         checks=checks,
         notes="All checks: ./run <ID> <tier> rebuilds /verif/bin/check from /repo's working tree with -tags verif, then shards over 16 worker processes. See DESIGN.md.",
